@@ -40,4 +40,8 @@ theorem disc_mask_eq (x : Obj) (p q : α) :
   have h2 : (-1 : α) ≠ 1 := fun h => h1 h.symm
   cases x <;> simp [Obj.sgn, Electre.discMask, h1, h2, sub_pos, sub_neg]
 
+theorem sgn_eq_neg_one (x : Obj) : (decide ((x.sgn : α) = -1)) = decide (x = .min) := by
+  have h1 : (1 : α) ≠ -1 := one_ne_neg_one
+  cases x <;> simp [Obj.sgn, h1]
+
 end Skc.Tie
